@@ -102,6 +102,9 @@ def hostile_acks(r, it, codec, tier, i):
     send rate lets it acknowledge: the queue of pending ack groups must stay bounded by the frame window."""
     cfg = pick_cfg(r)
     cfg["bwA"] = cfg["bwB"] = r.pick([1472, 20_000, 2_000_000])
+    if r.chance(1, 2):
+        # the flood crosses the wrap of the 32-bit frame ids (a hostile peer chooses its initial frame id: it is its handshake nonce)
+        cfg["fbA"] = (1 << 32) - r.pick([40, 200, 2000])
     sim = Sim(r, cfg, inter=it)
     net = Net(latency=0)
     sim.run(r.range(1, 5), 5_000_000, net, net, random_traffic(r, rate_pm=300, max_len=500), probe_every=1)
